@@ -22,6 +22,8 @@ fn options_from(v: &serde_json::Value) -> GraphQLClientCodegenOptions {
     if let Some(a) = v["extern_enums"].as_array() { o.set_extern_enums(a.iter().filter_map(|x| x.as_str().map(|s| s.to_string())).collect()); }
     if let Some(s) = v["module_visibility"].as_str() { if let Ok(vis) = syn::parse_str::<syn::Visibility>(s) { o.set_module_visibility(vis); } }
     if let Some(s) = v["serde_path"].as_str() { if let Ok(p) = syn::parse_str(s) { o.set_serde_path(p); } }
+    // what the derive sets besides the attribute keys: the query file the generated module `include_str!`s so that cargo tracks it (there is no setter for the schema file)
+    if let Some(s) = v["query_file"].as_str() { o.set_query_file(std::path::PathBuf::from(s)); }
     o
 }
 
